@@ -253,8 +253,22 @@ def has_ite(t):
     return False
 
 
+class Binder:
+    """Evaluation under a quantifier binder: terms mention to-be-bound constants, so no fresh names may be introduced for
+    them (a name would be a single constant shared by every instance of the quantified formula)."""
+    depth = 0
+
+    def __enter__(self):
+        Binder.depth += 1
+
+    def __exit__(self, *a):
+        Binder.depth -= 1
+
+
 def pattern_safe(t):
     """(term usable inside a pattern, [defining equalities])"""
+    if Binder.depth > 0:
+        return t, []
     if has_ite(t) or (z3.is_app(t) and t.decl().kind() != z3.Z3_OP_UNINTERPRETED):
         c = fresh("n", t.sort())
         return c, [c == t]
@@ -324,7 +338,8 @@ def wt(t, ty):
 def wt_seq(sq, et):
     """All elements of the VSq term are well-typed for et."""
     k = fresh("wk", I)
-    facts = wt(VS.at(sq, k), et)
+    with Binder():
+        facts = wt(VS.at(sq, k), et)
     if not facts:
         return []
     return [z3.ForAll([k], z3.Implies(z3.And(0 <= k, k < VS.len(sq)), z3.And(*facts)), patterns=[VS.at(sq, k)])]
@@ -363,3 +378,13 @@ def sym_value(name, ty):
         t = fresh(name, Val)
         return VAny(t), wt(t, ty)
     raise Unsupported(f"sym_value: {ty!r}")
+
+
+def wt_term(t, ty):
+    """Type facts of an unboxed term (int / bool / sequence sorts)."""
+    ty = parse_type(ty)
+    if ty in ("bytes", "bytearray"):
+        return [is_bytes_fact(t)]
+    if ty == "str":
+        return [is_chars_fact(t)]
+    return []
